@@ -930,7 +930,7 @@ func caseChild(arg string) string {
 
 const (
 	quick    = 480
-	thorough = 6000
+	thorough = 4000
 )
 
 func main() {
